@@ -386,7 +386,7 @@ def cellValuesWithBoundaries1D(phi, BC):
         phi,
         (BC.right.c.item()-phi[-1]*(-BC.right.a.item()/dx_end+BC.right.b.item()/2))/(BC.right.a.item()/dx_end+BC.right.b.item()/2)])
     else:
-        phiBC = np.hstack([phi[-1], phi, phi[0]])
+        phiBC = np.hstack([phi[-1], phi, phi[0]]).astype(float)
     return phiBC
 
 
